@@ -1,12 +1,12 @@
 /-
-Lemmas for the metric block layout model (`Model/MetricBlock.lean`): what `flushField` leaves
+Lemmas for the metric block layout model (`Model/BlockLayout.lean`): what `flushField` leaves
 (sizes, field offsets as prefix sums relative to Level4.startAt, the recorded spans), and the
 entry-level round trip.
 -/
-import LinVerif.Model.MetricBlock
+import LinVerif.Model.BlockLayout
 
 namespace LinVerif.Lemmas.C11Block
-open LinVerif.MetricBlock
+open LinVerif.BlockLayout
 
 def sumL : List Nat → Nat
   | [] => 0
